@@ -162,7 +162,7 @@ class Flattener:
         if isinstance(f, ast.Attribute) and isinstance(f.value, ast.Name) and f.value.id in ("cls", "self") and self.fi.cls is not None \
                 and f.attr.startswith("_") and not f.attr.startswith("__") and f.attr not in KNOWN_ATOMS:
             # a private method of the same class (resolved along the MRO of the defining class)
-            if any(isinstance(a, ast.Starred) for a in call.args) or any(k.arg is None for k in call.keywords):
+            if any(isinstance(a, ast.Starred) for a in call.args):
                 return None
             try:
                 g = self.ix.lookup_method(self.fi.cls, f.attr)
@@ -187,7 +187,7 @@ class Flattener:
             return node2
         if not isinstance(f, ast.Name):
             return None
-        if any(isinstance(a, ast.Starred) for a in call.args) or any(k.arg is None for k in call.keywords):
+        if any(isinstance(a, ast.Starred) for a in call.args):
             return None
         if f.id in local_defs:
             g = local_defs[f.id]
@@ -210,7 +210,7 @@ class Flattener:
     @staticmethod
     def _ok_def(node, allow_decorators=False):
         a = node.args
-        if a.vararg or a.kwarg or (node.decorator_list and not allow_decorators) or isinstance(node, ast.AsyncFunctionDef):
+        if a.vararg or (node.decorator_list and not allow_decorators) or isinstance(node, ast.AsyncFunctionDef):
             return False
         body = _strip_doc(node.body)
         if len(body) > MAX_HELPER_STMTS or not body:
@@ -230,10 +230,17 @@ class Flattener:
         for p_, v in zip(pos, call.args):
             given[p_.arg] = v
         names = [p_.arg for p_ in pos] + [p_.arg for p_ in a.kwonlyargs]
+        passthrough = [k for k in call.keywords if k.arg is None]
         for k in call.keywords:
+            if k.arg is None:
+                continue
             if k.arg not in names or k.arg in given:
                 return None
             given[k.arg] = k.value
+        # **kwargs of the caller handed on to **kwargs of the helper (nothing else ends up in it)
+        if passthrough or a.kwarg:
+            if not (a.kwarg and len(passthrough) == 1 and _simple(passthrough[0].value)):
+                return None
         for p_, d in zip(reversed(pos), reversed(a.defaults)):
             given.setdefault(p_.arg, d)
         for p_, d in zip(a.kwonlyargs, a.kw_defaults):
@@ -260,6 +267,10 @@ class Flattener:
                 mapping[n] = ast.Name(id=tmp, ctx=ast.Load())
             else:
                 mapping[n] = v
+        if a.kwarg:
+            if a.kwarg.arg in assigned:
+                return None
+            mapping[a.kwarg.arg] = passthrough[0].value
         for n in assigned:
             if n not in mapping:
                 mapping[n] = ast.Name(id=tag + n, ctx=ast.Load())
